@@ -20,7 +20,7 @@ RULE = ('Generated .rules files (0-8 rules, categorizing and tag-only interleave
 ASSUMPTIONS = ['reference classifier in tv/rules.py is the reading of the documentation',
                'CSV patterns that look like expressions are a known finding (D-csv-heuristic) and are excluded by construction, counted',
                'month/year/day/weekday of a missing date: not asserted']
-REQUIRED_CLASSES = ['shadowed_winner', 'tagonly_before_winner', 'transform_changes_winner', 'no_match', 'csv_modifier_decides', 'let_in_play']
+REQUIRED_CLASSES = ['chained_transforms', 'shadowed_winner', 'tagonly_before_winner', 'transform_changes_winner', 'no_match', 'csv_modifier_decides', 'let_in_play']
 
 case_st = st.deferred(lambda: _case())
 
@@ -92,6 +92,13 @@ def check(case, stats: Stats):
                 raise Violation(f'engine says {mcs(a)}, normalize_merchant says {mcs(b)} for {tc}\n{text}', case, 'engine-vs-pipeline')
         elif (b['category'], b['subcategory']) != ('Unknown', 'Unknown'):
             raise Violation(f'engine matched nothing but normalize_merchant says {mcs(b)} for {tc}\n{text}', case, 'engine-vs-pipeline')
+        if ref is not None and rf['transforms'] and ref['state_known']:
+            # "after the file's field transforms have been applied": the transforms are assignments carried out in file order, each seeing its predecessors
+            if a['description'] != ref['description'] or (txn.get('field') is not None and a['field'] != ref['field']):
+                raise Violation(f"after the field transforms the transaction is description={a['description']!r} field={a['field']!r}, expected "
+                                f"description={ref['description']!r} field={ref['field']!r} for {tc}\n{text}", case, 'transform-state')
+            if len(rf['transforms']) >= 2:
+                classes.add('chained_transforms')
         if ref is not None:
             want = (ref['merchant'], ref['category'], ref['subcategory'])
             got = mcs(a)
